@@ -110,12 +110,21 @@ func runC10(r *simrt.Run, tier Tier) Outcome {
 		var sb strings.Builder
 		sb.WriteString("Decl ev(A) temporal bound [/name].\n")
 		fmt.Fprintf(&sb, "ev(/a)@[%s, %s].\nev(/b)@[%s].\n", c14TS(1), c14TS(9), c14TS(4))
-		sb.WriteString("Decl e0(A0, A1) bound [/number, fn:Pair(/name, /string)] bound [.List</number>, /any].\n")
+		sb.WriteString("Decl e0(A0, A1) bound [/number, /any] bound [.List</number>, /any].\n")
 		sb.WriteString("e0(1, fn:pair(/a, \"x\\\"y\")).\ne0([1, 2], b\"\\x00z\").\n")
 		sb.WriteString("d(X) :- <-[0s, 5s] ev(X).\nh(X)@[S, E] :- ev(X)@[S, E], !d(X).\n")
 		sb.WriteString("p(X, N) :- e0(X, _) |> do fn:group_by(X), let N = fn:count().\n")
 		sb.WriteString("q(Y) :- e0(X, P), :match_pair(P, Y, Z), X < 3 |> let W = fn:plus(X, 1).\n")
 		sb.WriteString("s({/f: 1, /g: [/a: 2.5]}, `long\nstring`).\n")
+		// declarations with descriptors, constructor calls, lattice/merge declarations
+		sb.WriteString("Decl syn(X) descr [synthetic()] bound [/number].\nsyn(7).\n")
+		sb.WriteString("Decl doc(X, Y) descr [doc(\"a documented predicate\"), arg(X, \"first\"), arg(Y, \"second\"), mode('+', '-')] bound [/number, /string].\ndoc(1, \"one\").\n")
+		sb.WriteString("Decl best(K, V) descr [fundep([K], [V]), merge([V], \"better\")] bound [/name, /number].\nDecl better(A, B, C) descr [mode('+', '+', '-'), deferred()].\nbetter(A, B, C) :- A < B, C = B.\nbetter(A, B, C) :- A >= B, C = A.\nsrc(/k, 1).\nsrc(/k, 5).\nbest(K, V) :- src(K, V).\n")
+		sb.WriteString("mk(fn:map(/a, 1, /b, 2), fn:struct(/f, 1, /g, \"x\"), fn:list(1, 2, 3), fn:tuple(1, /a, \"s\")).\n")
+		sb.WriteString("acc(V) :- mk(M, S, L, T), :match_entry(M, /a, V).\nfld(V) :- mk(M, S, L, T), :match_field(S, /g, V).\n")
+		sb.WriteString("mk2(R) :- src(K, V) |> let R = fn:map(K, V).\nmk3(R) :- src(K, V) |> let R = fn:struct(/k, K, /v, V).\n")
+		sb.WriteString("hm(fn:map(K, V), fn:struct(/k, K), fn:list(K, V), fn:pair(K, V)) :- src(K, V).\n")
+		sb.WriteString("Decl tu(E) bound [.TaggedUnion</kind, /a : .Struct</x : /number>, /b : .Struct<>>].\ntu({/kind: /a, /x: 1}).\n")
 		artefact = []byte(sb.String())
 		desc = "declared/temporal program"
 	default:
@@ -141,11 +150,18 @@ func runC10(r *simrt.Run, tier Tier) Outcome {
 	if len(artefact) == 0 {
 		return Outcome{Discard: "empty-artefact"}
 	}
+	if kind == 1 {
+		// the artefact itself must be valid, or the faults only ever reach the parser
+		if st := c10Source(artefact, bytes.NewReader(artefact)); st != "evaluated" {
+			return Violation("C10/generator", "the fixed declared/temporal artefact is not accepted as it stands (%s)\n%s", st, artefact)
+		}
+	}
 	if len(artefact) > 3000 {
 		artefact = artefact[:3000]
 	}
-	fault := r.Choose(7, "c10.fault")
-	faultNames := []string{"truncate", "flip-byte", "insert-byte", "delete-byte", "header-tamper", "read-error", "empty-line"}
+	fault := r.Choose(10, "c10.fault")
+	faultNames := []string{"truncate", "flip-byte", "insert-byte", "delete-byte", "header-tamper", "read-error", "empty-line", "delete-token", "duplicate-token", "swap-tokens"}
+	tokens := c10Tokens(artefact)
 	if kind != 2 && fault == 4 {
 		fault = 0
 	}
@@ -213,6 +229,37 @@ func runC10(r *simrt.Run, tier Tier) Outcome {
 			failAt = off
 		case 6:
 			mutated = append(append(append([]byte{}, artefact[:off]...), '\n', '\n'), artefact[off:]...)
+		case 7, 8, 9: // token-level: delete / duplicate / swap with the next token
+			if len(tokens) < 3 {
+				continue
+			}
+			ti := (off*7 + ci) % (len(tokens) - 1)
+			a, b := tokens[ti], tokens[ti+1]
+			switch fault {
+			case 7:
+				lo, hi := a[0], a[1]
+				// take an adjacent comma along, so that argument lists shrink by one element
+				if ci%2 == 0 {
+					if artefact[b[0]] == ',' {
+						hi = b[1]
+					} else if ti > 0 && artefact[tokens[ti-1][0]] == ',' {
+						lo = tokens[ti-1][0]
+					}
+				}
+				mutated = append(append([]byte{}, artefact[:lo]...), artefact[hi:]...)
+			case 8:
+				mutated = append(append(append([]byte{}, artefact[:a[1]]...), artefact[a[0]:a[1]]...), artefact[a[1]:]...)
+				if ti > 0 && (artefact[a[0]] != ',' && artefact[a[0]] != '(') {
+					// duplicate "token," so that lists grow by one element
+					mutated = append(append(append(append([]byte{}, artefact[:a[1]]...), ','), artefact[a[0]:a[1]]...), artefact[a[1]:]...)
+				}
+			default:
+				mutated = append([]byte{}, artefact[:a[0]]...)
+				mutated = append(mutated, artefact[b[0]:b[1]]...)
+				mutated = append(mutated, artefact[a[1]:b[0]]...)
+				mutated = append(mutated, artefact[a[0]:a[1]]...)
+				mutated = append(mutated, artefact[b[1]:]...)
+			}
 		}
 		cases++
 		var res string
@@ -245,3 +292,45 @@ func clipBytes(b []byte) []byte {
 }
 
 var _ = bytes.Equal
+
+// c10Tokens splits text into token spans: runs of name/number characters and
+// single punctuation characters (blanks are skipped).
+func c10Tokens(text []byte) [][2]int {
+	var out [][2]int
+	isWord := func(b byte) bool {
+		return b == '_' || b == '/' || b == ':' || b == '.' && false || b >= '0' && b <= '9' || b >= 'a' && b <= 'z' || b >= 'A' && b <= 'Z' || b >= 0x80
+	}
+	for i := 0; i < len(text); {
+		switch {
+		case text[i] == ' ' || text[i] == '\n' || text[i] == '\t' || text[i] == '\r':
+			i++
+		case text[i] == '"':
+			j := i + 1
+			for j < len(text) && text[j] != '"' {
+				if text[j] == '\\' {
+					j++
+				}
+				j++
+			}
+			if j < len(text) {
+				j++
+			}
+			if j > len(text) {
+				j = len(text)
+			}
+			out = append(out, [2]int{i, j})
+			i = j
+		case isWord(text[i]):
+			j := i
+			for j < len(text) && isWord(text[j]) {
+				j++
+			}
+			out = append(out, [2]int{i, j})
+			i = j
+		default:
+			out = append(out, [2]int{i, i + 1})
+			i++
+		}
+	}
+	return out
+}
